@@ -1791,6 +1791,11 @@ class Node:
         message_id = (f"{conn.ident}:{message.header.hop_by_hop_identifier}:"
                       f"{message.header.end_to_end_identifier}")
         self._app_waiting_answer[message_id] = app
+        if conn.ident not in self.connections:
+            # the connection has been removed, and the table swept of its
+            # entries, while the request was being routed
+            self._app_waiting_answer.pop(message_id, None)
+            raise NotRoutable("The selected connection has gone away")
 
         return conn, message
 
